@@ -66,7 +66,7 @@ func vCopyModel(m map[vKey]vVal) map[vKey]vVal {
 
 func TestVerifC18BackupRestore(t *testing.T) {
 	stats := verifkit.For("C18", "TestVerifC18BackupRestore",
-		"bed E: a source shard is driven by generated writes (incl. ~1000-point series), snapshots, compactions, deletes and reopen so that it holds cache data and several file generations; then a full BackupShard (optionally with a write issued from inside the snapshot step of the backup) or a full-range ExportShard is taken and restored (RestoreShard) or imported (ImportShard) into a fresh store; the destination's full content and series listing must equal the source model at backup time (or the model after the in-flight write), the source content and directory listing must be unchanged, and a time-bounded export must contain every point inside the bounds and nothing the source does not have. non-trivial = source had un-snapshotted cache values and >=2 TSM files at backup time; distinct = hash of the action sequence + backup kind")
+		"bed E: a source shard is driven by generated writes (incl. ~1000-point series), snapshots, compactions, deletes and reopen so that it holds cache data and several file generations; then a full BackupShard (optionally with a write issued from inside the snapshot step of the backup, or arriving while another cache snapshot of the shard is held in flight for 40 ms) or a full-range ExportShard is taken and restored (RestoreShard) or imported (ImportShard) into a fresh store; the destination's full content and series listing must equal the source model at backup time (or the model after the in-flight write), the source content and directory listing must be unchanged, and a time-bounded export must contain every point inside the bounds and nothing the source does not have. non-trivial = source had un-snapshotted cache values and >=2 TSM files at backup time; distinct = hash of the action sequence + backup kind")
 	defer stats.Flush()
 	rapid.Check(t, func(rt *rapid.T) {
 		root, err := os.MkdirTemp("", "c18")
